@@ -534,8 +534,8 @@ pub fn run(r: &Report) {
          + 2 with an issuance whose inflation keys are blinded while its amount is explicit / absent \
          + the repository's real-network transaction; tampers at EVERY applicable position: explicit \
          amount +-1 (outputs, fee), asset swapped, value / asset commitment replaced by another valid one and by each other output's, made \
-         explicit, each range / surjection proof removed, exchanged with each other output's, truncated, bit-flipped (every byte in thorough, \
-         stride 64/16 in quick), script of each blinded output changed, issuance amount +-1 / removed / tokens+1 / entropy changed, each spent \
+         explicit, each range / surjection proof removed, exchanged with each other output's, truncated, bit-flipped (thorough: every byte for 32 base transactions and every 16th for the rest; \
+         quick: stride 64 / 16), script of each blinded output changed, issuance amount +-1 / removed / tokens+1 / entropy changed, each spent \
          output's value / asset changed, spent list shorter / longer (must be UtxoInputLenMismatch); (b) complete all-explicit product: 1..2 \
          inputs x assets {A,B} x values, issuance {none, amount, amount+tokens}, 0..2 outputs over assets {A,B,issued,token} x values 0..3 x \
          scripts {spendable, OP_RETURN, empty} (+ 3-output subset, + scripts of 9 999 / 10 000 / 10 001 bytes) vs the reference predicate; (c) exact-value / exact-asset proofs under \
@@ -544,9 +544,11 @@ pub fn run(r: &Report) {
     // (a)
     let cases = c04::verifying_cases(r.seed, r.tier.pick(60, 400));
     r.set_extra("verifying_base_transactions", json!(cases.len()));
-    cases.par_iter().for_each(|(sc, tx, spent)| {
+    // thorough: every bit position of every proof for the first 32 base transactions, every 16th byte for the rest
+    // (a 4 KiB range proof costs ~5 ms per verification; all positions of all 400 bases would be a day of CPU)
+    cases.par_iter().enumerate().for_each(|(k, (sc, tx, spent))| {
         let label = format!("{}in/{}marked", sc.inputs.len(), sc.outputs.iter().filter(|o| matches!(o.kind, OutKind::Marked(_))).count());
-        check_tampers(r, &label, tx, spent, stride);
+        check_tampers(r, &label, tx, spent, if thorough && k >= 32 { 16 } else { stride });
     });
     if let Some((_, tx, _)) = cases.first() {
         r.sample(json!({"base_tx_outputs": tx.output.len(), "tamper_classes_example": ["rangeproof-bit-flipped", "value-commitment-from-other-output", "spent-output-asset-changed/confidential"]}));
